@@ -749,6 +749,12 @@ type contractState struct {
 }
 
 func (c *contractState) resync() error {
+	// the client side of an exchange returns as soon as it has read the host's
+	// last message; the handler's deferred unlock runs after that, so the
+	// contract may still be locked for a moment: wait for the handlers first
+	if err := c.lab.Barrier(); err != nil {
+		return err
+	}
 	st, err := c.lab.Contractor.State(c.cur.ID)
 	if err != nil {
 		return fmt.Errorf("%w: host lost contract %v: %v", rhpmitm.ErrHarness, c.cur.ID, err)
@@ -2361,6 +2367,11 @@ func buildAccountFamily(f *family) error {
 		dep := []rhp4.AccountDeposit{{Account: newAccounts(1)[0], Amount: types.NewCurrency64(1000)}}
 		_, err := rhp.RPCFundAccounts(ctx, l.T, l.HostNode.CM.TipState(), l.Signer, rhp.ContractRevision{ID: c.cur.ID, Revision: rev}, dep)
 		f.r.Count("follow_up_rpcs_on_returned_revision", 1)
+		// the follow-up's own handler must have released the contract before
+		// the caller re-reads the host's state
+		if berr := l.Barrier(); berr != nil {
+			harnessFail(f.r, "barrier after follow-up on "+rpc, berr)
+		}
 		if err != nil {
 			return &finding{rpc + ":returned-revision-not-served-by-host", "a follow-up RPC built on the revision the successful call returned is refused by the honest host (the renter does not hold what the host holds): " + err.Error(), map[string]any{"returned_revision_number": rev.RevisionNumber}}
 		}
